@@ -16,6 +16,7 @@ model `match r.url with | some u => …`; they differ exactly on `url = ""`, whi
 (`self.url = parsed.url or None`): `ReqStr.url_ne_of_parse`, counterexample `ReqStr.str_url_empty_differs`,
 corollary without the hypothesis for parsed requirements `Requirement.__str___of_parse`.
 -/
+set_option linter.unusedSimpArgs false   -- x8: the simp sets list the lemmas of every accepted spelling
 namespace Src
 open PyRt Py
 open SSet (Member SpecSet)
@@ -50,6 +51,11 @@ theorem truthy_ofOptStr (u : Option Str) : truthy (ofOptStr u) = (match u with |
   cases u <;> rfl
 
 @[simp] theorem format_ofOptStr_some (s : Str) : format (ofOptStr (some s)) = .ok s := by rfl
+
+/-- x8: `"[" + s + "]"` instead of an f-string, a list handed back through `iter(parts)` instead of `yield`s -/
+@[simp] theorem add_str_str (a b : Str) : add (.str a) (.str b) = .ok (.str (a ++ b)) := by rfl
+@[simp] theorem add_str_ofOptStr (a s : Str) : add (.str a) (ofOptStr (some s)) = .ok (.str (a ++ s)) := by rfl
+@[simp] theorem iter__list (l : List PyVal) : PySet.iter_ (.list l) = .ok (.iter l) := by rfl
 
 /-- the literals of `_iter_parts` as code points -/
 theorem lits : ofString "[" = [91] ∧ ofString "]" = [93] ∧ ofString "," = [44] ∧ ofString "@ " = [64, 32] ∧
